@@ -114,6 +114,7 @@ int main(int argc, char ** argv) {
   myth_globalattr_t ga; myth_globalattr_init(&ga); myth_globalattr_set_n_workers(&ga, W);
   myth_init_ex(&ga);
   ctl_init(W);
+  memset(&mx, 0x5a, sizeof mx); memset(&c1, 0x5a, sizeof c1); memset(&c2, 0x5a, sizeof c2);   /* init must not rely on zero-filled memory */
   myth_mutex_init(&mx, 0); myth_cond_init(&c1, 0); myth_cond_init(&c2, 0);
   ctl_name_obj_kind(&mx, 1, "mutex");
   ctl_name_obj_kind(&c1, 2, "cond o1"); ctl_name_obj_kind(&c2, 3, "cond o1");
